@@ -27,6 +27,9 @@ import Mhd.Proofs.StrCmp
 import Mhd.Proofs.StrCompose
 import Mhd.Proofs.StrTok
 import Mhd.Proofs.StrRm
+import Mhd.Proofs.StrRmMain
+import Mhd.Proofs.StrRtMain
+import Mhd.Proofs.StrRtNorm
 
 namespace Mhd.C17
 open Mhd.Str
@@ -312,24 +315,115 @@ example : TokenOk [0x63, 0x6c, 0x6f, 0x73, 0x65] := by
   simp only [List.mem_cons, List.not_mem_nil, or_false] at hx
   rcases hx with h | h | h | h | h <;> subst h <;> decide
 
-/-! ## Comma-list token removal
+/-! ## Comma-list token removal -/
 
-  Full statement (not proved; carried by the correspondence run — bounded-exhaustive over
-  all strings of length ≤ 4/5 × all buffer sizes, plus random token lists — and by the
-  Python reference):
-    removeTokenCaseless str tok out = .ok (removed, n, o)  with
-      kept    = (tokensOf str).filter (fun e => e ≠ [] ∧ ¬ listEq charsEqualCaseless e tok)
-      result  = ", ".intercalate (kept.map collapseInnerWhitespace)
-      removed = (tokensOf str).any (listEq charsEqualCaseless · tok) ∧ n = result.length ∧ o.take n = result
-      if result fits into `out`, and (false, -1, _) otherwise;
-    removeTokensCaseless likewise under its documented precondition (normalised input).
-  Proved: memory safety, termination and the range of the reported size, for every input. -/
+/-- The reference editor, spelled out: `removeTokenOut str tok` is the ", "-joined list of the
+    elements of `str` (split on ',', spaces/tabs trimmed) that are non-empty and not caselessly
+    equal to `tok`, each normalised by `normElem` (every inner run of spaces/tabs becomes one
+    space); `hasTokenSpec str tok` says that some element equals `tok` caselessly. -/
+theorem removeTokenOut_def (str tok : Bytes) :
+    removeTokenOut str tok = ([0x2c, 0x20] : Bytes).intercalate
+      (((tokensOf str).filter (fun e => !e.isEmpty && !listEq charsEqualCaseless e tok)).map normElem) ∧
+    hasTokenSpec str tok = (tokensOf str).any (fun e => listEq charsEqualCaseless e tok) :=
+  ⟨by unfold removeTokenOut; rw [joinWith_eq_intercalate]; rfl, rfl⟩
 
-/-- `MHD_str_remove_token_caseless_`: for every string, token and output buffer the call
+/-- `MHD_str_remove_token_caseless_ (str, str_len, token, token_len, buf, &buf_size)`, for **every**
+    input string, **every** token the function permits (`tokenLegal`: non-empty, no space, tab,
+    comma — decidable) and **every** output buffer size:
+    * the call returns normally (no read beyond `str_len`/`token_len`, no write beyond `*buf_size`,
+      all loops terminate) and the buffer keeps its size;
+    * the overflow guard `SSIZE_MAX <= str_len / 2 * 3 + 3` refuses (false, -1);
+    * otherwise "buffer too small" (false, -1) is reported **exactly when** the reference output does
+      not fit, and when it fits the return value is the reference flag (token ∈ elements),
+      `*buf_size` is the exact output length and the buffer starts with the reference output.
+    The hypothesis `str.length ≤ SSIZE_MAX` is the C object-size limit: it is what keeps the
+    `size_t` expression of the guard from wrapping (the model computes it modulo 2^64). -/
+theorem removeToken_exact (str tok out : Bytes) (htok : tokenLegal tok = true)
+    (hlen : str.length ≤ Mhd.Gen.Str.ssizeMax) :
+    ∃ o, o.length = out.length ∧
+      if Mhd.Gen.Str.ssizeMax ≤ str.length / 2 * 3 + 3 then removeTokenCaseless str tok out = .ok (false, -1, o)
+      else if (removeTokenOut str tok).length ≤ out.length then
+        removeTokenCaseless str tok out = .ok (hasTokenSpec str tok, ((removeTokenOut str tok).length : Int), o) ∧
+        o.take (removeTokenOut str tok).length = removeTokenOut str tok
+      else removeTokenCaseless str tok out = .ok (false, -1, o) :=
+  removeTokenCaseless_spec str tok out htok hlen
+
+/-- "close" is a legal token; ",a" and "" are not -/
+example : tokenLegal [0x63, 0x6c, 0x6f, 0x73, 0x65] = true ∧ tokenLegal [0x2c, 0x61] = false ∧ tokenLegal [] = false := by decide
+/-- " a \\t b ,, CLOSE ,clo" minus "close": elements "a \\t b", "", "CLOSE", "clo" → "a b, clo", flag true -/
+example : removeTokenOut [0x20, 0x61, 0x20, 0x09, 0x20, 0x62, 0x20, 0x2c, 0x2c, 0x20, 0x43, 0x4c, 0x4f, 0x53, 0x45, 0x20, 0x2c, 0x63, 0x6c, 0x6f]
+            [0x63, 0x6c, 0x6f, 0x73, 0x65] = [0x61, 0x20, 0x62, 0x2c, 0x20, 0x63, 0x6c, 0x6f] ∧
+          hasTokenSpec [0x20, 0x61, 0x20, 0x09, 0x20, 0x62, 0x20, 0x2c, 0x2c, 0x20, 0x43, 0x4c, 0x4f, 0x53, 0x45, 0x20, 0x2c, 0x63, 0x6c, 0x6f]
+            [0x63, 0x6c, 0x6f, 0x73, 0x65] = true := by decide
+
+/-! ### `MHD_str_remove_tokens_caseless_` (in place, several tokens) -/
+
+/-- The reference, spelled out.  `csElems s` are the elements of a ", "-separated string,
+    `tokListOf tokens` the trimmed non-empty elements of the token list (split on ',', trim
+    spaces/tabs); the result keeps, in order, the elements that equal none of the tokens
+    caselessly; the flag says whether some element equals a token. -/
+theorem removeTokensOut_def (s tokens : Bytes) :
+    removeTokensOut s tokens = ([0x2c, 0x20] : Bytes).intercalate
+      ((csElems s).filter (fun e => !((tokensOf tokens).filter (fun t => !t.isEmpty)).any (fun t => listEq charsEqualCaseless e t))) ∧
+    removeTokensFlag s tokens =
+      (csElems s).any (fun e => ((tokensOf tokens).filter (fun t => !t.isEmpty)).any (fun t => listEq charsEqualCaseless e t)) := by
+  constructor
+  · unfold removeTokensOut; rw [joinWith_eq_intercalate]; rfl
+  · unfold removeTokensFlag keepAll tokListOf; simp
+
+/-- `MHD_str_remove_tokens_caseless_ (str, &str_len, tokens, tokens_len)`, for **every** string that
+    satisfies the documented precondition and **every** token list (any bytes, any length).
+    The precondition "the input string must be normalised" is used by the function only as
+    `isCsList str` (decidable): `str` is the ", "-join of non-empty, comma-free elements — weaker
+    than the documented normal form (which also forbids leading/trailing/repeated blanks inside
+    elements), and satisfied by every output of `MHD_str_remove_token_caseless_`
+    (`removeToken_output_normalised`).  Then
+    * the call returns normally (no read/write outside `[0, *str_len)` of the buffer and
+      `[0, tokens_len)` of the token list, all five nested loops terminate);
+    * `*str_len` on return is the length of the reference result and the buffer starts with it;
+    * the return value is true exactly when some element was removed;
+    * the string never grows, the allocated buffer keeps its size. -/
+theorem removeTokens_exact (str tokens : Bytes) (hn : isCsList str = true) :
+    ∃ buf, removeTokensCaseless str tokens =
+        .ok (removeTokensFlag str tokens, (removeTokensOut str tokens).length, buf) ∧
+      buf.length = str.length ∧ (removeTokensOut str tokens).length ≤ str.length ∧
+      buf.take (removeTokensOut str tokens).length = removeTokensOut str tokens :=
+  removeTokensCaseless_spec str tokens hn
+
+/-- every output of `MHD_str_remove_token_caseless_` (for any string and token) satisfies the
+    precondition of `MHD_str_remove_tokens_caseless_`, and its elements are the kept elements -/
+theorem removeToken_output_normalised (s tok : Bytes) :
+    isCsList (removeTokenOut s tok) = true ∧
+    csElems (removeTokenOut s tok) =
+      ((tokensOf s).filter (fun e => !e.isEmpty && !listEq charsEqualCaseless e tok)).map normElem :=
+  removeTokenOut_isCsList s tok
+
+/-- the two editors composed, as `connection.c` uses them: normalise with the first (any string
+    `s`), then remove a token list in place — no fault, and the result is the filtered list -/
+theorem removeTokens_after_removeToken (s tok tokens : Bytes) :
+    ∃ buf, removeTokensCaseless (removeTokenOut s tok) tokens =
+        .ok (removeTokensFlag (removeTokenOut s tok) tokens, (removeTokensOut (removeTokenOut s tok) tokens).length, buf) ∧
+      buf.take (removeTokensOut (removeTokenOut s tok) tokens).length = removeTokensOut (removeTokenOut s tok) tokens := by
+  obtain ⟨buf, h1, _, _, h4⟩ := removeTokens_exact (removeTokenOut s tok) tokens (removeToken_output_normalised s tok).1
+  exact ⟨buf, h1, h4⟩
+
+/-- "a b, close, c" is a normalised list with elements "a b", "close", "c"; ",x" and "a,b" are not -/
+example : isCsList [0x61, 0x20, 0x62, 0x2c, 0x20, 0x63, 0x6c, 0x6f, 0x73, 0x65, 0x2c, 0x20, 0x63] = true ∧
+          csElems [0x61, 0x20, 0x62, 0x2c, 0x20, 0x63, 0x6c, 0x6f, 0x73, 0x65, 0x2c, 0x20, 0x63] =
+            [[0x61, 0x20, 0x62], [0x63, 0x6c, 0x6f, 0x73, 0x65], [0x63]] ∧
+          isCsList [0x2c, 0x78] = false ∧ isCsList [0x61, 0x2c, 0x62] = false ∧ isCsList [] = true := by decide
+/-- "a b, close, c" minus the tokens of " C ,,\tCLOSE , a" ("C", "CLOSE", "a") is "a b"; the flag is set -/
+example : removeTokensOut [0x61, 0x20, 0x62, 0x2c, 0x20, 0x63, 0x6c, 0x6f, 0x73, 0x65, 0x2c, 0x20, 0x63]
+            [0x20, 0x43, 0x20, 0x2c, 0x2c, 0x09, 0x43, 0x4c, 0x4f, 0x53, 0x45, 0x20, 0x2c, 0x20, 0x61] = [0x61, 0x20, 0x62] ∧
+          removeTokensFlag [0x61, 0x20, 0x62, 0x2c, 0x20, 0x63, 0x6c, 0x6f, 0x73, 0x65, 0x2c, 0x20, 0x63]
+            [0x20, 0x43, 0x20, 0x2c, 0x2c, 0x09, 0x43, 0x4c, 0x4f, 0x53, 0x45, 0x20, 0x2c, 0x20, 0x61] = true := by decide
+
+/-- `MHD_str_remove_token_caseless_` with **any** token (also one outside the documented
+    domain, e.g. empty or containing a comma): for every string, token and output buffer the call
     returns normally — no read beyond `str_len` / `token_len`, no write beyond
     `*buf_size`, all loops terminate —, the buffer keeps its size, and the reported
     `*buf_size` is -1 or lies within the buffer. -/
-theorem removeToken_safe_partial (str token out : Bytes) :
+theorem removeToken_safe_any_token (str token out : Bytes) :
     ∃ r n o, removeTokenCaseless str token out = .ok (r, n, o) ∧ o.length = out.length ∧
       (n = -1 ∨ (0 ≤ n ∧ n ≤ (out.length : Int))) :=
   removeTokenCaseless_safe str token out
